@@ -4,8 +4,8 @@
    skeletonize.  A function whose term the checker rejects breaks [listed_accepted] and with it these theorems. *)
 From Coq Require Import ZArith List Bool.
 Import ListNotations.
-From Centro Require Import Model.MaskFlow Spec.MaskCheck Proofs.MaskFlowSound Proofs.MaskCheckSound
-  Proofs.MaskFlowDemo Gen.MaskProgC12.
+From Centro Require Import Model.MaskFlow Model.MaskRef Spec.MaskCheck Proofs.MaskFlowSound Proofs.MaskCheckSound
+  Proofs.MaskFlowDemo Proofs.MaskRefLocal Gen.MaskProgC12.
 Open Scope Z_scope.
 
 (* the dependence judgement is sound: whatever [rbp] computes for a program (shared definitions + main term) is a
@@ -53,10 +53,40 @@ Theorem C12_regional_maximum_any_structure : forall s, noninterfering (prog_regi
 Proof. exact (fun s => accepts_sound (prog_regional_maximum_struct s) (regional_maximum_struct_ok s)). Qed.
 Print Assumptions C12_regional_maximum_any_structure.
 
-(* the generated lists cover all 40 listed functions / all 15 binary ones *)
-Theorem C12_lists_complete : (length listed_progs, length binary_progs) = (40, 15)%nat.
+(* the generated lists cover the 40 functions the property names plus the 2 it implies (masked_convolution,
+   branchings) / all 15 binary ones *)
+Theorem C12_lists_complete : (length listed_progs, length binary_progs) = (42, 15)%nat.
 Proof. exact listed_count. Qed.
 Print Assumptions C12_lists_complete.
+
+(* THE LOCALITY TABLE tied to executable reference models (Model/MaskRef.v, compared with scipy.ndimage on every run):
+   a correlate/convolve of a finite array with a finite kernel, SciPy's constant or reflect border, reads only array
+   pixels within the kernel's extent of p (the table's `Loc (k//2)` for a literal kxk kernel) *)
+Theorem C12_ref_correlate_radius_is_extent : forall k mode c H W f g p,
+  inside H W p = true -> extent (map fst k) <= H -> extent (map fst k) <= W ->
+  agree_near H W f g p (extent (map fst k)) ->
+  let ex := fun h => if mode =? 0 then ext_const c H W h else ext_reflect H W h in
+  ref_correlate k (ex f) p = ref_correlate k (ex g) p.
+Proof. exact correlate_array_radius_is_extent. Qed.
+Print Assumptions C12_ref_correlate_radius_is_extent.
+
+(* binary erosion / dilation and grey erosion / dilation with a finite footprint: radius = extent of the footprint *)
+Theorem C12_ref_morphology_radius_is_extent : forall d0 fp a b p,
+  (forall q, dist p q <= extent (d0 :: fp) -> a q = b q) ->
+  ref_binary_erosion (d0 :: fp) a p = ref_binary_erosion (d0 :: fp) b p /\
+  ref_binary_dilation (d0 :: fp) a p = ref_binary_dilation (d0 :: fp) b p /\
+  ref_grey_erosion d0 fp a p = ref_grey_erosion d0 fp b p /\
+  ref_grey_dilation d0 fp a p = ref_grey_dilation d0 fp b p.
+Proof. exact (fun d0 fp a b p H => conj (binary_erosion_radius_is_extent (d0 :: fp) a b p H) (conj (binary_dilation_radius_is_extent (d0 :: fp) a b p H) (conj (grey_erosion_radius_is_extent d0 fp a b p H) (grey_dilation_radius_is_extent d0 fp a b p H)))). Qed.
+Print Assumptions C12_ref_morphology_radius_is_extent.
+
+(* binary_erosion(mask, footprint, border_value=0): truthy only where every footprint pixel is a set ARRAY pixel
+   (the table's guarantee of `Erode`) *)
+Theorem C12_ref_binary_erosion_guarantee : forall fp H W f p,
+  ref_binary_erosion fp (ext_const 0 H W f) p <> 0 ->
+  forall d, In d fp -> inside H W (padd p d) = true /\ f (padd p d) <> 0.
+Proof. exact binary_erosion_array_guarantee. Qed.
+Print Assumptions C12_ref_binary_erosion_guarantee.
 
 (* the two-run checker evaluated on the implementation's outputs is sound and complete *)
 Theorem C12_checker_sound : forall sel m a b, agree_on sel m a b = true -> Agree sel m a b.
